@@ -50,7 +50,7 @@ func (e *Exec) hchoose(st *State, m, c, a, b string) {
 	st.heap[m] = e.choose(st, m, e.heapSort[m], c, a, b)
 }
 
-var dbHeapNames =[]string{"GD_has", "GD_khas", "GD_vlen", "GD_val", "GD_bname"}
+var dbHeapNames = []string{"GD_has", "GD_khas", "GD_vlen", "GD_val", "GD_bname"}
 
 // strKey: the Str denoting the content of a byte slice; []byte("lit") round-trips to the literal.
 func (e *Exec) strKey(st *State, s Val) string {
